@@ -2214,4 +2214,55 @@ theorem hgl_remove (x : RMsg) (hx : x.1 ≠ Role.system) (a b : List RMsg) : hgl
   rw [hgl_eq_hLen, hgl_eq_hLen]; exact hLen_remove x hx a b none
 
 
+
+/-! ### failures of the loop have a cause (round 7) -/
+
+theorem scan_err_inv (cfg : Cfg) (cost : Nat → Nat) (bad : Nat → Bool) (msgs : List Msg) :
+    ∀ (k n : Nat) (s : Option Nat) (q : Nat), scan cfg cost bad msgs k n s q = .err →
+      cfg.mllama = true ∧ ∃ i, i < k ∧ 1 < (imagesAt msgs i).length := by
+  intro k
+  induction k with
+  | zero => intro n s q h; simp [scan] at h
+  | succ k ih =>
+    intro n s q h
+    unfold scan at h
+    split at h
+    · rename_i hc
+      simp only [Bool.and_eq_true, decide_eq_true_eq] at hc
+      exact ⟨hc.1, k, by omega, hc.2⟩
+    · split at h
+      · obtain ⟨a, i, hi, hb⟩ := ih _ _ _ h
+        exact ⟨a, i, by omega, hb⟩
+      · split at h
+        · cases h
+        · split at h
+          · obtain ⟨a, i, hi, hb⟩ := ih _ _ _ h
+            exact ⟨a, i, by omega, hb⟩
+          · cases h
+
+theorem scan_fail_inv (cfg : Cfg) (cost : Nat → Nat) (bad : Nat → Bool) (msgs : List Msg) :
+    ∀ (k n : Nat) (s : Option Nat) (q : Nat) (i : Nat), scan cfg cost bad msgs k n s q = .fail i →
+      bad i = true ∧ i < k := by
+  intro k
+  induction k with
+  | zero => intro n s q i h; simp [scan] at h
+  | succ k ih =>
+    intro n s q i h
+    unfold scan at h
+    split at h
+    · cases h
+    · split at h
+      · obtain ⟨a, b⟩ := ih _ _ _ _ h
+        exact ⟨a, by omega⟩
+      · split at h
+        · rename_i hb
+          injection h with h
+          subst h
+          exact ⟨hb, by omega⟩
+        · split at h
+          · obtain ⟨a, b⟩ := ih _ _ _ _ h
+            exact ⟨a, by omega⟩
+          · cases h
+
+
 end OllamaVerif.Prompt
